@@ -28,6 +28,8 @@ SEMANTIC = [
     (re.compile(r'recommendation not met|recommends'), 'recommends'),
     (re.compile(r'possible truncation|cast'), 'panic_free'),
     (re.compile(r'type invariant'), 'panic_free'),
+    (re.compile(r'post-?condition of closure|closure .*ensures'), 'post'),
+    (re.compile(r'unable to prove'), 'proof_step'),
 ]
 NONSEMANTIC = re.compile(r'rlimit|Resource limit|timed out|timeout|solver|not supported|unsupported|internal error', re.I)
 
